@@ -158,6 +158,10 @@ def draw_take(draw, world, hi=None):
 
 
 def _stored_value(draw, dom, tuples):
+    if tuples and draw(st.integers(0, 11)) == 0:
+        # binary strings are legal values (documented: stored as lists of ints), also nested
+        b = bytes(draw(st.lists(st.integers(0, 255), max_size=3)))
+        return draw(st.sampled_from([b, [b], {"b": b}, (b, 1)]))
     v = draw(dom.values())
     if tuples:
         v = tupled(draw, v)
